@@ -175,13 +175,13 @@ func enumerateFaults(thorough bool, each func(s Script, label string) bool) {
 	}
 	for _, b := range baseScripts([]int{1, 2}, []bool{false}) {
 		for k := 1; k <= limit; k++ {
-			for _, over := range []bool{true, false} {
+			for variant := 0; variant < 3; variant++ {
 				count++
 				if count%n != me {
 					continue
 				}
 				s := b
-				s.Fault = &Fault{Call: k, Over: over, Delta: 1}
+				s.Fault = &Fault{Call: k, Over: variant == 0, Delta: 1, Outside: variant == 2}
 				if !each(s, "fault-enumeration") {
 					return
 				}
